@@ -43,6 +43,8 @@ def rand_type(rnd, depth, atoms):
         return {"k": "union", "as": [sub() for _ in range(rnd.randint(2, 3))]}
     if k == "optional":
         return {"k": "union", "as": [sub(), {"k": "base", "n": "none"}]}
+    if rnd.random() < 0.3:
+        return {"k": "typeu", "cs": rnd.sample(["A", "B", "C", "int", "str"], 2)}
     return {"k": "type", "c": rnd.choice(["A", "B", "C", "int", "any"])}
 
 
@@ -80,8 +82,8 @@ def rand_value(rnd, T, scalars, depth=0):
         return {"t": "tuple", "e": [sub(T["a"]) for _ in range(rnd.randint(0, 3))]}
     if k == "union":
         return sub(rnd.choice(T["as"]))
-    if k == "type":
-        return {"t": "cls", "n": rnd.choice(["A", "B", "C", "int", "bool"])}
+    if k in ("type", "typeu"):
+        return {"t": "cls", "n": rnd.choice(["A", "B", "C", "int", "bool", "str"])}
     return rnd.choice(scalars)
 
 
